@@ -45,9 +45,12 @@
   the six comparisons, `And`, `Or`; `try_index_lookup` serves `Eq` by a hash index, ranges by a b-tree
   index and `And` by the index of its left side, else of its right side.  `tx_select` = phase check +
   `select`; `batch_insert` appends rows outside any transaction.
-  The two halves of `tx_update` / `tx_delete` (scan, then lock + apply) are in `RaceModel.lean`.
+  The two halves of `tx_update` / `tx_delete` (scan, then lock + re-read + apply; fcb86137) are in
+  `RaceModel.lean`; `drop_table` (refused while an open transaction has uncommitted changes in the
+  table, 6f865e8a; takes the in-memory b-tree maps with it, 6992261a) and `create_table` under a name
+  that was used before are in `DdlModel.lean`.
   Not modelled: other value types (they behave like Int with their own hash key and order),
-  constraints, `_id` indexes, drop_table / ALTER TABLE, the condition depth limit, query timeouts
+  constraints, `_id` indexes, ALTER TABLE, the condition depth limit, query timeouts
   and result caps, the b-tree entry cap, durable mode.
 -/
 namespace Neumann.RelTx
@@ -186,6 +189,7 @@ deriving DecidableEq, Repr
 inductive Err where
   | txNotFound | txInactive | tableNotFound | columnNotFound | badInput
   | lockConflict | indexExists | indexNotFound | rollbackFailed
+  | tableExists               -- `TableAlreadyExists` (`create_table` under a name in use; `DdlModel.lean`)
 deriving DecidableEq, Repr
 
 inductive Res where
